@@ -13,6 +13,7 @@ Definition ev_eqb (a b : ev) : bool :=
   | EAbort r i, EAbort r' i' => (r =? r') && (i =? i')
   | EEscape r, EEscape r' => r =? r'
   | EIndexPanic r, EIndexPanic r' => r =? r'
+  | EDeadlock r, EDeadlock r' => r =? r'
   | EOutOfFuel, EOutOfFuel => true
   | EHang, EHang => true
   | _, _ => false
@@ -26,45 +27,17 @@ Definition agree (c : case) : bool := list_eqb (list_eqb ev_eqb) (run (fst c)) (
 Definition is_artifact (x : ev) : bool :=
   match x with EIndexPanic _ | EOutOfFuel | EHang => true | _ => false end.
 
-(* directions of the runs that were created, from the implementation's own observation:
-   a Start/Stop call that produced any event was not refused *)
-Fixpoint created (ops : list op) (obs : list (list ev)) : list bool :=
-  match ops, obs with
-  | OStart :: ops', (_ :: _) :: obs' => true :: created ops' obs'
-  | OStop :: ops', (_ :: _) :: obs' => false :: created ops' obs'
-  | _ :: ops', _ :: obs' => created ops' obs'
-  | _, _ => []
-  end.
-
+(* directions of the runs that were created: Spec.created, from the implementation's own
+   observation *)
 Fixpoint runs_ok (n : nat) (log : list ev) (r : Z) (dirs : list bool) : bool :=
   match dirs with
   | [] => true
   | d :: ds => run_ok_b (order d n) (proj r log) && runs_ok n log (r + 1) ds
   end.
 
-(* App guards: at most one start run; a stop run only against a finish(true) of the start
-   run that has not been used by an earlier stop run *)
-Definition fin_true_of (fr : option Z) (x : list ev) : nat :=
-  match fr with Some r0 => n_fin_true (proj r0 x) | None => 0%nat end.
-
-Fixpoint guard_ok (fr : option Z) (budget : nat) (nr : Z) (ops : list op) (obs : list (list ev)) : bool :=
-  match ops, obs with
-  | o :: ops', x :: obs' =>
-      match o, x with
-      | OStart, _ :: _ =>
-          match fr with
-          | Some _ => false
-          | None => guard_ok (Some nr) (n_fin_true (proj nr x)) (nr + 1) ops' obs'
-          end
-      | OStop, _ :: _ =>
-          match budget with
-          | O => false
-          | S b => guard_ok fr (b + fin_true_of fr x) (nr + 1) ops' obs'
-          end
-      | _, _ => guard_ok fr (budget + fin_true_of fr x) nr ops' obs'
-      end
-  | _, _ => true
-  end.
+(* App guards: Spec.app_guard_ok - the state machine of App.Start / App.Stop replayed on the
+   observation; every request (operation or made inside a completion callback) honoured exactly
+   when the state allows it *)
 
 (* shipped modules: Spec.shipped_calls_once, executable - every call (run r, module i) of a
    shipped module reported exactly once (plus what the environment fired at it); the Stop
@@ -88,12 +61,15 @@ Definition monitor (c : case) : bool :=
   let '(ops, obs) := c in
   let e := env_of ops in
   let log := concat obs in
-  let dirs := created ops obs in
   negb (existsb is_artifact log)
   && Nat.eqb (length obs) (length ops)
-  && runs_ok (length (e_mods e)) log 0 dirs
-  && (if is_app (e_mode e) then guard_ok None 0 0 ops obs else true)
-  && builtin_ok ops obs (unclaimed e dirs false [] log) (e_mods e) 0 dirs.
+  && match created ops obs with
+     | None => false
+     | Some dirs =>
+         runs_ok (length (e_mods e)) log 0 dirs
+         && app_guard_ok ops obs dirs
+         && builtin_ok ops obs (unclaimed e dirs false [] log) (e_mods e) 0 dirs
+     end.
 
 Definition disagreeing (cs : list case) : list Z := failing agree cs.
 Definition monitor_failing (cs : list case) : list Z := failing monitor cs.
